@@ -140,6 +140,9 @@ var envTemplates = []string{
 	// a `def` inside a function body is local to that CALL — the name `scratch` is the same in every program on purpose
 	"(do (def %Pz (fn [] (do (def scratch (quote %Pz)) (%T scratch) (def %Pn (fn [n] (if (< n 1) scratch (%Pn (- n 1))))) (%Pn 40)))) [(%Pz) (%Pz)])",
 	"(do (def %Py (fn [x] (do (def scratch [x (quote %Py)]) (let [w (apply + (map (fn [i] i) [1 2 3 4 5 6 7 8 9]))] [scratch w])))) (map %Py [1 2 3]))",
+	// two expansion temporaries of ONE macro call are two different symbols, whatever the other evaluations do
+	"(do (defmacro %Pt (fn [a b] (let [x (gensym) y (gensym)] `(let [~x ~a ~y ~b] [~x ~y (= (quote ~x) (quote ~y))])))) (def %Pr (fn [n acc] (if (< n 1) acc (%Pr (- n 1) (%Pt 2 1))))) (%Pr 60 nil))",
+	"(do (def %Ps (fn [n] (if (< n 1) true (and (let [f (future (str (gensym))) g (future (str (gensym)))] (not (= (deref f) (deref g)))) (%Ps (- n 1)))))) (%Ps 25))",
 	// errors caught while other evaluations run
 	"(do (def %Pq (fn [n acc] (if (< n 1) acc (%Pq (- n 1) (try (throw (+ acc 1)) (catch e e)))))) (%T (%Pq 30 0)))",
 }
